@@ -104,9 +104,25 @@ def jstep (j : J) : Ev → J
   | .dump _ => j
   | .snoop _ _ => j
   | .lpcerr => j
+  | .vreq _ => j
   | .fault w => j.flag ("crash " ++ w)
 
 def judgeFrom (j : J) (evs : List Ev) : J := evs.foldl jstep j
+
+/-- formatting clause: the text add_vmessage stores is byte for byte the text it was asked to format.  A `vreq d` (request)
+must be followed, before anything else of that user, by `wbeg true d` with the same bytes - not a byte less (a formatting
+buffer that is too small by one), not a byte more. -/
+def fstep (st : Option (List Byte) × List String) : Ev → Option (List Byte) × List String
+  | .vreq d => (some d, if st.1.isSome then "format-request-without-call" :: st.2 else st.2)
+  | .wbeg v d =>
+    match st.1 with
+    | none => (none, st.2)
+    | some want => (none, if v && want == d then st.2 else "formatted-text-mismatch" :: st.2)
+  | _ => if st.1.isSome then (none, "format-request-without-call" :: st.2) else st
+
+def judgeFmt (evs : List Ev) : List String :=
+  let r := evs.foldl fstep (none, [])
+  (if r.1.isSome then "format-request-without-call" :: r.2 else r.2).reverse
 
 /-- the oracle: list of violations (oldest first); `[]` = the property holds on this trace -/
 def judgeEv (evs : List Ev) : List String := (judgeFrom {} evs).bad.reverse
